@@ -392,15 +392,47 @@ def _minimal_cases():
 LINE_BYTES = {11: (18, 80), 12: (51, 160), 13: (16, 160), 14: (5, 32)}
 
 
+_TAILV = None
+
+
+def tail_variants():
+    """More full-size variants for the tail sweep only (2-page CM3 with raw lines, VEF of every
+    type raw and squashed, composite raw MGE, RAT with escape 0xFF, Newsroom art)."""
+    global _TAILV
+    if _TAILV is None:
+        import random
+        r = random.Random(4711)
+        want = [("cm3", lambda c: c.params["pages"] == 2 and c.params["praw"] == 1.0),
+                ("cm3", lambda c: c.params["pages"] == 2 and c.params["praw"] == 0.0 and c.params["patterns"]),
+                ("vef", lambda c: c.params["type"] == 1 and c.params["squashed"]),
+                ("vef", lambda c: c.params["type"] == 1 and not c.params["squashed"]),
+                ("vef", lambda c: c.params["type"] == 0 and not c.params["squashed"]),
+                ("vef", lambda c: c.params["type"] == 3 and c.params["squashed"]),
+                ("mge", lambda c: c.params["raw"] and not c.params["rgb"]),
+                ("rat", lambda c: c.params["esc"] in (0, 255)),
+                ("art", lambda c: len(c.data) > 300),
+                ("pix", lambda c: c.params["k"] >= 90)]
+        out = []
+        for fmt, ok in want:
+            for _ in range(400):
+                c = formats.GEN[fmt](r, small=False)
+                if ok(c):
+                    out.append(c)
+                    break
+        _TAILV = out
+    return _TAILV
+
+
 def c19_tail_chunk(arg):
     """Enumeration for the quick tier: every sweep file cut 1, 2, 3, 16, 256 and 4000 bytes
     before its end (a download that stopped just short), by file and by pipe."""
     ci, part, nparts = arg
     warm()
-    case = minimal_cases()[ci]
+    case = minimal_cases()[ci] if ci >= 0 else tail_variants()[-ci - 1]
     recs = []
     n = len(case.data)
-    cuts = [(n - back) for back in (1, 2, 3, 16, 256, 4000) if n - back >= 0]
+    cuts = sorted(set((n - back) for back in (1, 2, 3, 4, 5, 8, 12, 16, 40, 100, 256, 700, 1500, 4000)
+                      if n - back >= 0))
     envs = (Env(), Env("dash", "dash", "small", "small", n, n))
     line = LINE_BYTES.get(ci)
     if line:
